@@ -96,6 +96,15 @@ Utf8(bytes, more) ==
                        ELSE cp >= 65536 /\ cp <= 1114111
           IN IF valid THEN Res(<<Ev("char", "", cp, 0, 0)>>, need + 1) ELSE Res(<<Ev("raw", "", c, 0, 0)>>, 1)
 
+\* double-byte ("wide") encodings: a byte >= 128 starts a character; the byte after it belongs to the same character when it is a
+\* possible second half: 128..255 in every double-byte encoding, 64..126 after a lead >= 129 (big5, uhc, gbk); reported once, as the pair
+Wide(bytes, more) ==
+  LET c == bytes[1] IN
+  IF Len(bytes) < 2 THEN (IF more THEN Need ELSE Res(<<Ev("char", "", c, 0, 0)>>, 1))
+  ELSE LET t == bytes[2] IN
+       IF t >= 128 \/ (c >= 129 /\ t >= 64 /\ t <= 126) THEN Res(<<Ev("dchar", "", c, 0, t)>>, 2)
+       ELSE Res(<<Ev("char", "", c, 0, 0)>>, 1)
+
 CtrlName(c) ==
   CASE c = 8 -> "backspace" [] c = 9 -> "tab" [] c = 10 -> "enter" [] c = 13 -> "enter" [] c = 127 -> "backspace"
     [] c > 0 /\ c < 27 -> "ctrl " \o Chr(96 + c)
@@ -107,7 +116,7 @@ DecodeOne(bytes, more, mode) ==
   LET c == bytes[1] IN
   IF c >= 32 /\ c <= 126 THEN Res(<<KeyEv(Chr(c))>>, 1)
   ELSE IF CtrlName(c) # "" THEN Res(<<KeyEv(CtrlName(c))>>, 1)
-  ELSE IF c >= 128 THEN (IF mode = "utf8" THEN Utf8(bytes, more) ELSE Res(<<Ev("char", "", c, 0, 0)>>, 1))
+  ELSE IF c >= 128 THEN (IF mode = "utf8" THEN Utf8(bytes, more) ELSE IF mode = "wide" THEN Wide(bytes, more) ELSE Res(<<Ev("char", "", c, 0, 0)>>, 1))
   ELSE IF c # 27 THEN Res(<<Ev("raw", "", c, 0, 0)>>, 1)
   ELSE LET rest == Drop(bytes, 1)
            tm == TableMatch(rest)
@@ -124,7 +133,7 @@ DecodeOne(bytes, more, mode) ==
                     IF run.need \/ run.unspec THEN run
                     ELSE LET f == run.evs[1]
                              asEsc == f.k = "mouse" \/ f.k = "cpr" \/ (f.k = "key" /\ (f.name = "esc" \/ f.name \in MetaNames \/ Take(<<f.b>>, 1) = <<1>>))
-                                  \/ (f.k = "char" /\ f.b = 1)     \* a character that already carries the meta prefix
+                                  \/ (f.k \in {"char", "dchar"} /\ f.b = 1)     \* a character that already carries the meta prefix
                          IN IF asEsc THEN Res(<<KeyEv("esc")>> \o run.evs, run.used + 1)
                             ELSE IF f.k = "raw" THEN Unspec
                             ELSE Res(<<[f EXCEPT !.name = "meta " \o @, !.b = 1]>> \o Tail(run.evs), run.used + 1)
